@@ -99,7 +99,10 @@ def analyse(ctx, replace=None, only=None):
     stale(R, fns)
     slots(R, P, fns)
     iterator(R, P, fns)
+    iter_park(R, P, fns)
+    slots_zeroed(R, P, fns)
     hash_align(R, P)
+    content_pairs(R, P)
 
 
 def destruct(R, fns):
@@ -407,6 +410,88 @@ def iterator(R, P, fns):
     R.check(loops == ["(i < limit)"], "ITER", "scan-below-limit", "%s()" % f.name, "the scan stops at the iterator's limit")
 
 
+def iter_park(R, P, fns):
+    """ITER/parked-at-limit: when no further entry exists the iterator is parked with slot == limit (NUM), the very test
+    aws_hash_iter_done makes; a delete may have lowered limit below the table size, so `slot = size` is not `done`"""
+    f = fns["s_get_next_element"]
+    num = Num(f, P, HtHooks())
+    try:
+        sts = num.states_at({-1})
+    except Limit as ex:
+        R.broken(str(ex))
+        return
+    done = P.enums.get("AWS_HASH_ITER_STATUS_DONE")
+    ok, det, n = True, "", 0
+    for st in sts.get(-1, []):
+        stv = [v for k, v in st.env.items() if k.endswith(")->status")]
+        if not (len(stv) == 1 and stv[0].is_const() and stv[0].cval() == done):
+            continue
+        n += 1
+        sl = [v for k, v in st.env.items() if k.endswith(")->slot")]
+        lm = [v for k, v in st.env.items() if k.endswith(")->limit")]
+        if len(sl) != 1 or len(lm) != 1 or not (entails(st, sl[0] - lm[0]) and entails(st, lm[0] - sl[0])):
+            ok, det = False, "slot = %s, limit = %s" % (sl, lm)
+    R.check(ok and n >= 1 and done is not None, "ITER", "exhausted-iterator-parked-at-limit", "s_get_next_element()", "status DONE is stored together with slot == limit (%d states)" % n,
+            "an exhausted iterator is parked with %s: after a deletion has lowered the limit aws_hash_iter_done never becomes true and the loop keeps yielding a NULL element" % det)
+
+
+PAIRS_HE = [("aws_hash_c_string", "aws_hash_callback_c_str_eq"), ("aws_hash_string", "aws_hash_callback_string_eq"), ("aws_hash_uint64_t_by_identity", "aws_hash_compare_uint64_t_eq"),
+            ("aws_hash_byte_cursor_ptr", None), ("aws_hash_ptr", "aws_ptr_eq")]
+
+
+def content_pairs(R, P):
+    """HASH-ALIGN/content: the library's hash functions for keys that are compared by CONTENT hash the content: the key pointer
+    is only dereferenced / handed to a reader of the pointee, its own value (the address) never enters the hash - equal keys
+    stored at different addresses hash equally.  (aws_hash_ptr / aws_ptr_eq compare and hash the pointer itself.)"""
+    n = 0
+    for hn, en in PAIRS_HE:
+        h = P.fn(hn)
+        if not R.require(h is not None, "%s not found" % hn):
+            continue
+        R.fn(h)
+        by_content = en != "aws_ptr_eq"
+        if not by_content:
+            continue
+        pn = h.params[0]["n"]
+        bad = []
+        for b in h.blocks.values():
+            for el in b.elems:
+                for x in h.walk(el):
+                    if x["k"] == "un" and x["op"] == "addr" and any(y["k"] == "var" and y["n"] == pn for y in h.walk(x["a"][0], follow_refs=True)) and h.d(x["a"][0])["k"] == "var":
+                        bad.append("&" + pn)
+                    if x["k"] == "cast" and "w" in h.unit.types[x["t"]] and not h.unit.types[x["t"]].get("ptr"):
+                        o = RU.uncast(h, x["a"][0])
+                        if o is not None and o["k"] == "var" and o["n"] == pn:
+                            bad.append("(integer)" + pn)
+        n += 1
+        R.check(not bad, "HASH-ALIGN", "content-hash:%s" % hn, "%s()" % hn, "the key pointer is only dereferenced: the hash is a function of the key's content",
+                "%s uses the key pointer's own value (%s): two equal keys stored at different addresses hash differently, so a stored key is not found through an equal key object" % (hn, sorted(set(bad))))
+    R.require(n >= 3, "only %d content hash functions checked" % n)
+
+
+def slots_zeroed(R, P, fns):
+    """COUNT/slots-start-empty: a new slot array is all zero (hash code 0 = empty): the state comes from aws_mem_calloc
+    over the whole required size, or a memset covers size * sizeof(struct hash_table_entry) bytes of the slots"""
+    f = fns.get("s_alloc_state")
+    if not R.require(f is not None, "s_alloc_state not found"):
+        return
+    cal = [e for e in f.calls("aws_mem_calloc") if "required_bytes" in f.show(e.node)]
+    esz = (P.records.get("hash_table_entry") or {}).get("size")
+    ms = f.calls({"memset", "__builtin_memset", "__builtin___memset_chk"})
+    okz = bool(cal)
+    det = "no aws_mem_calloc(required_bytes)"
+    if not okz and ms and esz:
+        for e in ms:
+            sz = f.show(RU.arg(f, e.node, 2)).replace(" ", "")
+            tsz = [y for y in f.walk(RU.arg(f, e.node, 2), follow_refs=True) if y["k"] == "int" or f.is_const(y) is not None]
+            consts = {f.is_const(y) for y in f.walk(RU.arg(f, e.node, 2), follow_refs=True) if f.is_const(y) is not None}
+            if "slots" in f.show(RU.arg(f, e.node, 0)) and f.is_const(RU.arg(f, e.node, 1)) == 0 and esz in consts and "size" in sz:
+                okz = True
+            det = "memset(%s, 0, %s) with sizeof(struct hash_table_entry) = %s" % (f.show(RU.arg(f, e.node, 0)), f.show(RU.arg(f, e.node, 2)), esz)
+    R.check(okz, "COUNT", "alloc:slots-start-empty", "s_alloc_state()", "the new state is calloc'ed over required_bytes (or its slots are zeroed at the entry size)",
+            "a fresh slot array is not completely zeroed (%s): with memory that is not already zero the tail of the array holds phantom entries (non-zero hash codes), destructors run on garbage and probing may not terminate" % det)
+
+
 def hash_align(R, P):
     for fname in ("hashlittle2", "hashlittle"):
         f = P.fn(fname)
@@ -481,6 +566,9 @@ def ignore_case_pair(R, P):
 
 
 MUTANTS = [
+    {"name": "exhausted-iterator-parked-at-size", "file": HT, "expect": "ITER", "old": "    iter->slot = iter->limit;\n    iter->status = AWS_HASH_ITER_STATUS_DONE;", "new": "    iter->slot = state->size;\n    iter->status = AWS_HASH_ITER_STATUS_DONE;"},
+    {"name": "u64-hash-of-the-key-address", "file": HT, "expect": "HASH-ALIGN", "old": "    return *(uint64_t *)item;", "new": "    uint64_t value;\n    memcpy(&value, &item, sizeof(value));\n    return value;"},
+    {"name": "slots-zeroed-at-element-size", "file": HT, "expect": "COUNT", "old": "    struct hash_table_state *state = aws_mem_calloc(template->alloc, 1, required_bytes);", "new": "    struct hash_table_state *state = aws_mem_acquire(template->alloc, required_bytes);\n    if (state) { memset(state->slots, 0, template->size * sizeof(struct aws_hash_element)); }"},
     {"name": "value-destructor-needs-key-destructor", "file": HT, "expect": "DESTRUCT", "old": "        if (p_elem->key != key && state->destroy_key_fn) {\n            state->destroy_key_fn((void *)p_elem->key);\n        }\n\n        if (state->destroy_value_fn) {\n            state->destroy_value_fn((void *)p_elem->value);\n        }",
      "new": "        if (state->destroy_key_fn) {\n            if (p_elem->key != key) {\n                state->destroy_key_fn((void *)p_elem->key);\n            }\n            if (state->destroy_value_fn) {\n                state->destroy_value_fn((void *)p_elem->value);\n            }\n        }"},
     {"name": "ignore-case-hash-skips-table-for-Z", "file": "source/byte_buf.c", "expect": "HASH-ALIGN", "old": "        const uint8_t lower = s_tolower_table[*i++];", "new": "        const uint8_t c = *i++;\n        const uint8_t lower = (c < 'Z') ? s_tolower_table[c] : c;"},
